@@ -851,6 +851,25 @@ def locate_corpus():
     return hs
 
 
+def indirect_corpus():
+    """Objects reached indirectly: every ordered pair (object, wrapping key) for Get and (base, base) for DeriveKey over six
+    keys under different policies, as five identities.  (A wrapping key / base loaded under the wrong operation, or not
+    through the choke point, shows up here.)"""
+    def st(user, groups, items):
+        return {'user': user, 'groups': groups, 'version': [1, 2], 'cont': False, 'items': items}
+    h = []
+    for user, pol in (('alice', None), ('alice', 'pa'), ('alice', 'pb'), ('bob', 'pc'), ('bob', 'pd'), ('bob', 'pa')):
+        h.append(st(user, None, [{'k': 'create', 'pol': pol}, {'k': 'activate', 'uid': None}]))
+    ids = [str(k) for k in range(1, 7)]
+    for user, groups in (('alice', None), ('bob', None), ('bob', ['G1']), ('carol', ['G2']), ('alice', ['G1', 'G2'])):
+        for a in ids:
+            for b in ids:
+                if a != b:
+                    h.append(st(user, groups, [{'k': 'get', 'uid': a, 'wrap': b}]))
+                    h.append(st(user, groups, [{'k': 'derive', 'uids': [a, b], 'pol': None}]))
+    return [h]
+
+
 HEADER_B = ('From Coq Require Import String ZArith List Bool.\n'
             'From PK Require Import Policy.Policy Policy.AccessTypes Policy.Access Policy.AccessCases.\n'
             'Import ListNotations.\nOpen Scope Z_scope.\nOpen Scope string_scope.\n')
@@ -895,7 +914,7 @@ def report_violations(ctx, viol, P, P_engine, doc, steps, state):
 
 def histories(ctx):
     quick = ctx.tier == 'quick'
-    n_hist, n_steps = (12, 36) if quick else (70, 60)
+    n_hist, n_steps = (20, 36) if quick else (160, 70)
     rng = ctx.subrng('histories')
     cases, metas = [], []
     plan = []
@@ -905,6 +924,8 @@ def histories(ctx):
         plan.append((Pc, Pc_engine, docc, h, 'corpus-%d' % k))
     for k, h in enumerate(locate_corpus()):
         plan.append((Pc, Pc_engine, docc, h, 'locate-corpus-%d' % k))
+    for k, h in enumerate(indirect_corpus()):
+        plan.append((Pc, Pc_engine, docc, h, 'indirect-corpus-%d' % k))
     for k in range(n_hist):
         doc = random_policy_document(rng)
         P, P_engine = load_document(ctx, doc)
@@ -958,7 +979,7 @@ def document_cases(ctx, eng):
              'groups-two-types': {'groups': {'G1': {'SECRET_DATA': {'GET': 'ALLOW_ALL'}, 'SYMMETRIC_KEY': {'LOCATE': 'ALLOW_ALL'}},
                                              'G2': {'SYMMETRIC_KEY': {'GET': 'ALLOW_OWNER'}}}},
              'empty-body': {}, 'empty-preset': {'preset': {}}, 'empty-groups': {'preset': {'SYMMETRIC_KEY': {'GET': 'ALLOW_ALL'}}, 'groups': {}}}
-    docs = [fixed] + [random_policy_document(rng) for _ in range(6 if ctx.tier == 'quick' else 30)]
+    docs = [fixed] + [random_policy_document(rng) for _ in range(6 if ctx.tier == 'quick' else 50)]
     for di, doc in enumerate(docs):
         P_spec, P_engine = load_document(ctx, doc)
         real._operation_policies = P_engine
@@ -1065,10 +1086,14 @@ def run(ctx):
     load_local_findings(ctx)
     ctx.cov['rule'] = ('(a) every cell of the abstract decision space: 9 preset shapes x 39 groups shapes (+ missing policy) x '
                        'requester {owner, other, anonymous} x 11 group lists, and the built-in policies over every object type x operation; '
-                       '(b) a fixed corpus history (every addressing operation x 7 identities x 5 objects under default/custom/unknown policies) and '
-                       'seeded engine histories over 3 users x 9 group lists, random custom policies (preset and/or groups, missing type/operation entries), '
-                       '7 object types, 19 operations incl. wrapping key, derivation bases, ID placeholder, batches. A case is distinct by '
-                       '(policy shape, requester, groups) resp. (operation, placeholder?, outcome class, groups, policy name, requester is owner).')
+                       "(a') policy DOCUMENTS written to a file and loaded with read_policy_from_file: every (7 object types x 16 operations) x 6 identities "
+                       'for every policy of each document, spec evaluated on the document; '
+                       '(b) fixed corpus histories (every addressing operation x 7 identities x 5 objects; alternating-owner creations + Locate plain/filtered/'
+                       'offset/maximum by 7 identities; every ordered pair (object, wrapping key) and (base, base) x 5 identities) and seeded engine histories over '
+                       '3 users x 9 group lists, random policy documents (preset and/or groups, legacy layout, object types with different operation sets, '
+                       'missing entries) loaded through the policy-file loader, 7 object types, 19 operations incl. wrapping key, derivation bases, '
+                       'ID placeholder, batches. A case is distinct by (policy shape, requester, groups) resp. (document, policy, type, operation, identity) '
+                       'resp. (operation, placeholder?, outcome class, groups, policy name, requester is owner).')
     if not ctx.regen(only=['policies']):
         use_fallback_tables(ctx)
     del _loaded_cases[:]
